@@ -795,8 +795,10 @@ def last_row_check(fc: FileCheck, doc, timing):
   double-height row two more newline codes), VP + newline codes for single height. Judged as an order: equal last rows,
   equal anchors; a lower last row, a strictly lower anchor. No coordinates."""
   from ttconv.isd import ISD
-  if not fc.rf.teletext or fc.rows_cfg is None:
+  if fc.rows_cfg is None or not (fc.rf.teletext or fc.source.startswith("table:dh-open")):
     return
+  if not fc.rf.teletext:
+    fc.ctx.count("class:double-height-ladder-open")
   seen = []
   for s, tm in zip(fc.rf.subs, timing):
     if tm[0] != "ok" or tm[2] <= tm[1] or s.comment or s.cum_set is not None or s.inner_filler or s.layout_irregular or len(s.readings) != 1:
@@ -1083,6 +1085,12 @@ def table_files():
           ttis, t = [], 0
       if ttis:
         out.append((f"table:cct{cct}:dsc{dsc}:{len(out)}", G.assemble({"dfc": "STL25.01", "dsc": dsc, "cct": cct}, ttis)))
+  # double-height ladders in open / undefined-DSC files (s-C09-14): the reader counts a double-height row as two rows for every
+  # DSC, so the bottom anchor must follow the last occupied row there as well; enumerated, own random streams
+  import random
+  for k in range(8):
+    data, _ast = G.gen_dh_file(random.Random(9000 + k), dsc="0" if k % 2 == 0 else " ")
+    out.append((f"table:dh-open:{k}", data))
   return out
 
 
